@@ -365,6 +365,104 @@ impl Prop for C06 {
         }
         let _ = before;
 
+        // 2b. the same vector arriving through the decoder (kept in its serialized order): a
+        // strided enumeration must show the declared shares too
+        {
+            use std::str::FromStr;
+            let mut spec = StateSpec { trans: vec![(0, v.trans.clone())], ..StateSpec::default() };
+            spec.action = None;
+            let mspec = MachineSpec {
+                allowed_padding_packets: 0,
+                max_padding_frac: Fx(0.0),
+                allowed_blocked_microsec: 0,
+                max_blocking_frac: Fx(0.0),
+                states: std::iter::once(spec).chain((0..6).map(|_| StateSpec::default())).collect(),
+            };
+            let text = crate::mirror::v2_string(&crate::mirror::bincode_of(&crate::mirror::mmachine(&mspec)));
+            let decoded = Machine::from_str(&text).map_err(|e| Failure {
+                signature: "validated-vector-rejected-by-from_str".into(),
+                detail: e.to_string(),
+            })?;
+            let dstate = &decoded.states[0];
+            const STRIDE: u32 = 8;
+            let mut dcounts = vec![0u64; k];
+            let mut kk = 3u32;
+            while kk < N {
+                rng.0 = kk << 9;
+                if let Some(t) = dstate.sample_state(Event::NormalRecv, &mut rng) {
+                    match v.trans.iter().position(|(x, _)| *x == t) {
+                        Some(i) => dcounts[i] += 1,
+                        None => return fail("sampled-target-not-in-list", format!("decoded state, word {kk}<<9 gave target {t}")),
+                    }
+                }
+                kk += STRIDE;
+            }
+            for i in 0..k {
+                let expect = scaled[i] / STRIDE as f64;
+                if (dcounts[i] as f64 - expect).abs() > 2.0 + i as f64 {
+                    return fail(
+                        "share-differs-from-probability (decoded state)",
+                        format!("target #{i} ({}) declared p={:?}: a machine decoded from its string chose it on {} of {} strided draws, expected {expect}", v.trans[i].0, v.trans[i].1 .0, dcounts[i], N / STRIDE),
+                    );
+                }
+            }
+            obs.hit("decoded_state_checked");
+        }
+
+        // 2c. delivery: each external event kind reaches a machine that declares a certain
+        // transition on it, whoever the event names (completions of other machines excepted)
+        {
+            let evs: [(Ev, usize, bool); 14] = [
+                (Ev::NormalRecv, 0, true),
+                (Ev::PaddingRecv, 1, true),
+                (Ev::TunnelRecv, 2, true),
+                (Ev::NormalSent, 3, true),
+                (Ev::TunnelSent, 5, true),
+                (Ev::BlockingEnd, 7, true),
+                (Ev::BlockingBegin(0), 6, true),
+                (Ev::BlockingBegin(1), 6, true), // blocking is global: another machine's block is seen too
+                (Ev::BlockingBegin(9), 6, true),
+                (Ev::PaddingSent(0), 4, true),
+                (Ev::PaddingSent(1), 4, false),
+                (Ev::TimerBegin(0), 10, true),
+                (Ev::TimerEnd(0), 11, true),
+                (Ev::TimerEnd(1), 11, false),
+            ];
+            let pick = (v.trans.len() + v.trans[0].0) % evs.len();
+            let (ev, eidx, moves) = evs[pick];
+            let probe = MachineSpec {
+                allowed_padding_packets: u64::MAX,
+                max_padding_frac: Fx(0.0),
+                allowed_blocked_microsec: 0,
+                max_blocking_frac: Fx(0.0),
+                states: vec![
+                    StateSpec { trans: vec![(eidx as u8, vec![(1, Fs(1.0))])], ..StateSpec::default() },
+                    pad_state(777.0),
+                ],
+            };
+            let idle = MachineSpec { states: vec![StateSpec::default()], ..probe.clone() };
+            let ms = build_machines(&[probe, idle]).unwrap_or_else(|e| panic!("probe machines rejected: {e}"));
+            let case = FwCase {
+                machines: vec![],
+                max_padding_frac: Fx(0.0),
+                max_blocking_frac: Fx(0.0),
+                start: 0,
+                words: vec![],
+                seed: v.trans.len() as u64,
+                calls: vec![],
+            };
+            let mut run = FwRun::new(&case, ms, None).map_err(|e| Failure { signature: "framework-new-rejects-validated-machines".into(), detail: e })?;
+            let rec = run.call(&Call { clock: Clock::Add(1), events: vec![ev] });
+            let moved = rec.snap.machines[0].state == 1;
+            if moved != moves {
+                return fail(
+                    "certain-transition-not-taken-or-taken-for-foreign-completion",
+                    format!("a machine with a probability-1 transition on {ev:?}: moved = {moved}, expected {moves}"),
+                );
+            }
+            obs.hit("delivery_probe");
+        }
+
         // 3. framework level: the sampled target is the dispatched one
         let specs = probe_machines(v);
         let machines = build_machines(&specs).unwrap_or_else(|e| panic!("probe machines rejected: {e}"));
@@ -430,7 +528,7 @@ impl Prop for C06 {
     }
 
     fn required_classes() -> Vec<&'static str> {
-        vec!["dyadic_exact", "non_dyadic_tolerance", "sum_exactly_one", "pseudo_state_target", "vector_rejected_by_validation"]
+        vec!["dyadic_exact", "non_dyadic_tolerance", "sum_exactly_one", "pseudo_state_target", "vector_rejected_by_validation", "decoded_state_checked", "delivery_probe"]
     }
 
     fn assumptions() -> Vec<&'static str> {
